@@ -26,6 +26,11 @@ def run(ctx):
     ctx.rule("R10-8", "the value is inserted as text, not as a regex replacement template: nothing read from the environment "
                       "or the shell variables reaches the template argument of Regex::replace* / Captures::expand in the "
                       "expansion pass unescaped (`$1`, `${2}`, a trailing `$` in a value would be interpreted)")
+    ctx.rule("R10-9", "the adjacent text is preserved, not read as part of the name: the tokenizer glues the text that follows a "
+                      "closing double quote onto the same token (`\"$DIR\"_backup` becomes the text `$DIR_backup` under tag "
+                      "`\"`), so on that path it must delimit a trailing `$NAME` first - an iteration that starts in the "
+                      "`quote just closed` state and reads an ordinary character passes a call that rewrites the token "
+                      "with a `$` pattern before the character is appended (explored over the tokenizer's character loop)")
     ctx.rule("R10-3", "$? formats previous_status, $$ formats getpid()")
     for crate in ctx.crates:
         b = crate.fn("shell::expand_env")
@@ -48,6 +53,7 @@ def run(ctx):
         c03.dollar_rule(ctx, crate)
         from .c09 import precedence_rule
         precedence_rule(ctx, crate, "R10-4")
+        glue_rule(ctx, crate)
     # c03.dollar_rule registers under R03-4: relabel for this property
     for o in ctx.obligations:
         if o["rule"] == "R03-4":
@@ -139,3 +145,109 @@ def template_rule(ctx, crate):
     if n == 0:
         ctx.ob("R10-8", "shell::expand_one_env", "the expansion pass uses no replacement template", True, crate=crate.kind,
                nontrivial=False)
+
+
+def glue_rule(ctx, crate):
+    from .c01 import TokenizerModel, _is_tag_var
+    from .c02 import dom_facts
+    from ..mir import FactWalker, const_char, const_str, last_seg, strip_sites, render
+    from ..etag import norm_guard
+    b = crate.fn("parsers::parser_line::parse_line")
+    if not ctx.require(b is not None, "R10-9", "R10-9|anchor", "parsers::parser_line::parse_line not found"):
+        return
+    M = TokenizerModel(b)
+    if not ctx.require(M.ok, "R10-9", "R10-9|%s|model" % b.path, M.why or "tokenizer loop not recognised", b.path):
+        return
+    blocks, cexpr = M.blocks, M.cexpr
+    # the `quote just closed` flag: a bool set under `tag == current character`
+    closed = None
+    for bi, si, st in b.stmts():
+        if bi in blocks and st["k"] == "assign" and not st["place"]["p"] and b.locals[st["place"]["l"]]["ty"] == "bool" \
+                and mir.const_bool(b.rvalue_expr(st["rv"])) is True:
+            for a, v in dom_facts(b, bi, within=blocks):
+                g = norm_guard(a, v)
+                a2 = strip_sites(a)
+                if a2[0] == "call" and last_seg(a2[1]) in ("eq", "ne") and ((last_seg(a2[1]) == "eq") == bool(v)) and \
+                        any(sub == cexpr for sub in mir.subexprs(a2)) and \
+                        any(sub[0] == "var" and _is_tag_var(b, sub[1]) for sub in mir.subexprs(a2)):
+                    closed = ("var", st["place"]["l"], b.names.get(st["place"]["l"]))
+    if not ctx.require(closed is not None, "R10-9", "R10-9|%s|closed-flag" % b.path,
+                       "the `quote just closed` state of the tokenizer was not identified", b.path):
+        return
+    token_vars = set(M.pushes_c.values())
+    ends = {bb for bb, t, c in b.calls() if bb in blocks and last_seg(c) == "push" and "Vec" in c}
+    # delimiting calls: the token is handed to something that carries a `$` pattern (directly, or a local helper does)
+    def has_dollar_pattern(fb):
+        for bb, t, c in fb.calls():
+            for a in fb.call_args(bb):
+                v = const_str(fb.expand_vars(strip_sites(a)))
+                if v is not None and "$" in v and ("\\$" in v or "[$]" in v):
+                    return True
+        return False
+    delim = set()
+    for bb, t, c in b.calls():
+        if bb not in blocks:
+            continue
+        a = b.call_args(bb)
+        if not a or last_seg(c) in ("push", "push_str", "len", "is_empty", "clone", "to_string", "deref", "eq", "ne"):
+            continue
+        if not any(mir.root_local_expr(b.expand_vars(strip_sites(x))) in token_vars for x in a):
+            continue
+        ci = b.callee_info(t)
+        callee = crate.fn(ci["resolved"]) if ci is not None and ci.get("local") else None
+        lit = any(const_str(b.expand_vars(strip_sites(x))) is not None and
+                  ("\\$" in const_str(b.expand_vars(strip_sites(x))) or "[$]" in const_str(b.expand_vars(strip_sites(x))))
+                  for x in a)
+        if lit or (callee is not None and has_dollar_pattern(callee)):
+            delim.add(bb)
+    w = FactWalker(b, lambda a: True, cut_back_edges=False)
+    named_bools = [("var", l, b.names.get(l)) for l in b.names if b.locals[l]["ty"] == "bool"]
+    found = {"glued": 0, "delimited": 0}
+
+    def step(bb, st):
+        facts, delimited, pushed, ended = st
+        if bb in delim:
+            delimited = True
+        if bb in M.pushes_c:
+            pushed = True
+        if bb in ends:
+            ended = True
+        out = []
+        for nb2, atom, val in w.edges(bb):
+            if nb2 not in blocks:
+                continue
+            if (bb, nb2) in M.back:
+                if pushed and not ended:
+                    found["glued"] += 1
+                    if delimited:
+                        found["delimited"] += 1
+                continue
+            if atom is not None:
+                if atom[0] == "bin" and atom[1] in ("Eq", "Ne") and atom[2] == cexpr and const_char(atom[3]) is not None:
+                    if (atom[1] == "Ne") != val:      # the character read is none of the constants
+                        continue
+                g = norm_guard(atom, val)
+                if g is not None and g[0] == "is_empty" and g[1][0] == "var" and _is_tag_var(b, g[1][1]) and g[2] is True:
+                    continue                          # the tag is `"`, not empty
+                if g is not None and g[0] == "eq" and g[1][0] == "var" and _is_tag_var(b, g[1][1]) and \
+                        isinstance(g[2], str) and g[3] is not (g[2] == "\""):
+                    continue
+            f2 = w.apply_block(bb, facts)
+            if atom is not None:
+                if any(a2 == atom and not mir._consistent(v2, val) for a2, v2 in f2):
+                    continue
+                if atom[0] == "var" and b.locals[atom[1]]["ty"] == "bool":
+                    f2 = f2 | {(atom, val)}
+            out.append((nb2, (f2, delimited, pushed, ended)))
+        return out
+
+    init = frozenset({(v, v == closed) for v in named_bools})
+    seen = mir.explore(b, M.some_t[0], (init, False, False, False), step, limit=400000)
+    ctx.paths_enumerated += len(seen)
+    ok = found["glued"] == 0 or found["delimited"] > 0
+    ctx.ob("R10-9", b.path, "text glued after a closing double quote: a trailing `$NAME` of the token is delimited on that path "
+                            "(%d glue path(s), %d through a delimiting call, %d call(s) of that kind)" %
+           (found["glued"], found["delimited"], len(delim)), ok,
+           key="R10-9|%s|glue-after-quote|name-delimited" % b.path, crate=crate.kind,
+           detail=None if ok else "`\"$A\"x` is tokenized to the text `$Ax` under the double-quote tag: the expansion reads the "
+           "variable Ax (usually unset) - the adjacent text is lost instead of preserved")
